@@ -243,12 +243,12 @@ def run(ctx):
         for mx in (400, 4096):
             for le in (True, False):
                 for mlen in range(1, 10):
-                    base = len(_Msg(4, 0, 1, {1: "/a", 2: "a.b", 3: "M" * mlen}, "ay", (b"",), le=le).encode())
+                    base = len(_Msg(4, 0, 1, {1: "/a", 2: "a.b", 3: "M" * mlen}, "ay", (b"",), le=le).encode(field_order=[1, 2, 8, 3]))     # MEMBER last: its length sets the header padding
                     for extra in range(-9, 10):
                         nbytes = mx + extra - base
                         if nbytes < 0:
                             continue
-                        bb = _Msg(4, 0, 1, {1: "/a", 2: "a.b", 3: "M" * mlen}, "ay", (bytes(nbytes),), le=le).encode()
+                        bb = _Msg(4, 0, 1, {1: "/a", 2: "a.b", 3: "M" * mlen}, "ay", (bytes(nbytes),), le=le).encode(field_order=[1, 2, 8, 3])
                         slines.append("loadmax %d m %s" % (mx, vlib.hexs(bb))); smeta.append((mx, len(bb)))
         si, scr = vlib.run_lines(info["wire_h"], slines)
         sm, _ = vlib.run_lines(info["model"], slines)
